@@ -286,6 +286,7 @@ func (w *World) loopHead(fr *Frame, st *State, h *ssa.BasicBlock, k int) {
 		for _, c := range cells {
 			assigned[c] = true
 		}
+		callTargets := w.resolveLoopCallTargets(fr, st, keys, inLoop, assigned)
 		for _, key := range keys {
 			if _, ok := w.heapSort[key]; !ok {
 				continue
@@ -322,6 +323,7 @@ func (w *World) loopHead(fr *Frame, st *State, h *ssa.BasicBlock, k int) {
 					}
 					targets = append(targets, t)
 				}
+				targets = append(targets, callTargets[key]...)
 			}
 			if fr.top {
 				if fr.loopPolicy == nil {
@@ -330,7 +332,7 @@ func (w *World) loopHead(fr *Frame, st *State, h *ssa.BasicBlock, k int) {
 				if fr.loopPolicy[h] == nil {
 					fr.loopPolicy[h] = map[string]*loopKeyPolicy{}
 				}
-				fr.loopPolicy[h][key] = &loopKeyPolicy{precise: precise, freshOnly: freshOnly, targets: targets}
+				fr.loopPolicy[h][key] = &loopKeyPolicy{precise: precise, freshOnly: freshOnly, targets: targets, headAlloc: oa}
 			}
 			if os.Getenv("GOAVC_DEBUG") != "" {
 				fmt.Fprintf(os.Stderr, "loop %d of %s: havoc %s precise=%v whole=%v freshOnly=%v targets=%d\n", k, fr.fn.Name(), key, precise, w.loopWhole[key], freshOnly, len(w.loopTargets[key]))
@@ -599,6 +601,7 @@ func (w *World) loopWrites(fr *Frame, blocks []*ssa.BasicBlock) (cells []cellID,
 	w.loopKeysExtra = nil
 	w.loopPreserved = nil
 	w.loopFreshAlloc = map[string]bool{}
+	w.loopCallSites = nil
 	addKey := func(k string) {
 		if !seenK[k] {
 			seenK[k] = true
@@ -756,6 +759,223 @@ type loopKeyPolicy struct {
 	precise   bool
 	freshOnly bool
 	targets   []Term
+	headAlloc Term // allocation counter at the loop head
+}
+
+// loopCallSite is a call by contract made inside a loop.
+type loopCallSite struct {
+	ct     *Contract
+	callee *ssa.Function
+	c      *ssa.CallCommon
+	keys   []string
+}
+
+func containsStr(xs []string, x string) bool {
+	for _, y := range xs {
+		if y == x {
+			return true
+		}
+	}
+	return false
+}
+
+// resolveLoopCallTargets evaluates, at the loop head, the modifies clauses of
+// the calls by contract the loop makes. A target is usable when it is a single
+// object, its arguments do not change inside the loop and nothing it reads is
+// written by the loop; otherwise the key is havocked as a whole.
+func (w *World) resolveLoopCallTargets(fr *Frame, st *State, keys []string, inLoop map[*ssa.BasicBlock]bool, assigned map[cellID]bool) map[string][]Term {
+	out := map[string][]Term{}
+	written := map[string]bool{}
+	for _, k := range keys {
+		if !(w.loopFreshAlloc[k] && !w.loopWhole[k] && len(w.loopTargets[k]) == 0 && !w.loopFreshOnly[k]) || true {
+			written[k] = true
+		}
+	}
+	for _, cs := range w.loopCallSites {
+		vars := map[string]*Val{}
+		var args []ssa.Value
+		if cs.c.IsInvoke() {
+			args = append(args, cs.c.Value)
+		}
+		args = append(args, cs.c.Args...)
+		names := cs.ct.Params
+		var ptypes []types.Type
+		if cs.callee != nil {
+			for _, p := range cs.callee.Params {
+				ptypes = append(ptypes, p.Type())
+				if len(cs.ct.Params) == 0 {
+					names = append(names, p.Name())
+				}
+			}
+		} else {
+			for _, a := range args {
+				ptypes = append(ptypes, a.Type())
+			}
+		}
+		for i, a := range args {
+			if i >= len(names) {
+				break
+			}
+			pt := a.Type()
+			if i < len(ptypes) {
+				pt = ptypes[i]
+			}
+			if t, ok := w.loopInvariantTerm(fr, st, a, inLoop, assigned); ok && t.Sort == w.sortOf(a.Type()) {
+				vars[names[i]] = &Val{T: t, Typ: pt}
+			} else {
+				vars[names[i]] = &Val{T: Term{"|poison!" + names[i] + "|", w.sortOf(a.Type())}, Typ: pt}
+			}
+		}
+		pkg := contractPkg(w, cs.ct, cs.callee)
+		bad := map[string]bool{}
+		good := map[string][]Term{}
+		for _, me := range cs.ct.Modifies {
+			func() {
+				env := &CEnv{w: w, pkg: pkg, vars: vars, cur: st, old: st, lets: cs.ct.Lets, reads: map[string]bool{}}
+				var ts []modTarget
+				failed := false
+				func() {
+					defer func() {
+						if r := recover(); r != nil {
+							if _, ok := r.(unsupportedErr); !ok {
+								panic(r)
+							}
+							failed = true
+						}
+					}()
+					ts = w.modTarget(env, me)
+				}()
+				if failed {
+					for _, k := range cs.keys {
+						bad[k] = true
+					}
+					return
+				}
+				unstable := false
+				for k := range env.reads {
+					if written[k] {
+						unstable = true
+					}
+				}
+				if unstable {
+					// the designated object may change inside the loop: keep the
+					// object designated at function entry as the target and let
+					// every call prove that it writes that one or an object
+					// allocated since entry (checked at the call)
+					var te []modTarget
+					var eenv *CEnv
+					efail := false
+					func() {
+						defer func() {
+							if r := recover(); r != nil {
+								if _, ok := r.(unsupportedErr); !ok {
+									panic(r)
+								}
+								efail = true
+							}
+						}()
+						eenv = &CEnv{w: w, pkg: pkg, vars: vars, cur: fr.entry, old: fr.entry, lets: cs.ct.Lets, reads: map[string]bool{}, readIdx: map[string][]string{}}
+						te = w.modTarget(eenv, me)
+					}()
+					// the entry-state designation means something only when it was read
+					// through objects that existed at entry
+					valid := tTrue
+					if !efail {
+						ea := w.hget(fr.entry, allocKey)
+						for k, idxs := range eenv.readIdx {
+							if strings.HasPrefix(k, "Glob!") {
+								continue
+							}
+							if !strings.HasPrefix(k, "F!") {
+								valid = tFalse
+								continue
+							}
+							for _, ix := range idxs {
+								valid = and(valid, Term{fmt.Sprintf("(<= %s %s)", ix, ea.S), SBool})
+							}
+						}
+					}
+					for _, t := range ts {
+						if efail {
+							bad[t.key] = true
+						}
+					}
+					if efail {
+						return
+					}
+					for _, t := range te {
+						if t.whole || t.member != nil || strings.Contains(t.idx.S, "poison!") || t.idx.S == "" {
+							bad[t.key] = true
+							continue
+						}
+						good[t.key] = append(good[t.key], ite(valid, t.idx, intLit(-1)))
+						w.loopFreshOnly[t.key] = true
+					}
+					return
+				}
+				for _, t := range ts {
+					if t.whole || t.member != nil || strings.Contains(t.idx.S, "poison!") || t.idx.S == "" {
+						bad[t.key] = true
+						continue
+					}
+					good[t.key] = append(good[t.key], t.idx)
+				}
+			}()
+		}
+		for k := range bad {
+			w.loopWhole[k] = true
+		}
+		for k, ts := range good {
+			if !bad[k] {
+				out[k] = append(out[k], ts...)
+			}
+		}
+	}
+	return out
+}
+
+// loopCallWriteCheck: a call by contract inside a loop writes the objects the
+// loop head assumed (or objects allocated since the loop head).
+func (w *World) loopCallWriteCheck(fr *Frame, st *State, targets []modTarget) {
+	if !fr.top || fr.loops == nil || w.curBlock == nil || fr.loopPolicy == nil || w.muted > 0 {
+		return
+	}
+	for h, blocks := range fr.loops.body {
+		in := false
+		for _, b := range blocks {
+			if b == w.curBlock {
+				in = true
+			}
+		}
+		if !in {
+			continue
+		}
+		for _, t := range targets {
+			pol := fr.loopPolicy[h][t.key]
+			if pol == nil || !pol.precise {
+				continue
+			}
+			props := []string{}
+			if fr.contract != nil {
+				props = fr.contract.Props
+			}
+			w.callOrd["loopwrite"]++
+			name := fmt.Sprintf("loopwrite.%d.%s.call-target", w.callOrd["loopwrite"], t.key)
+			if t.whole || t.member != nil {
+				o := w.oblige("loop.write", name, st.cond, tFalse, false, props)
+				o.Result = &SolverResult{Status: "undecided", Output: "a call inside the loop may write " + t.key + " at objects the loop head did not resolve"}
+				continue
+			}
+			alts := []Term{lt(pol.headAlloc, t.idx), eq(t.idx, intLit(0))} // (nothing lives at reference 0)
+			if pol.freshOnly {
+				alts = append(alts, lt(w.hget(fr.entry, allocKey), t.idx))
+			}
+			for _, pt := range pol.targets {
+				alts = append(alts, eq(t.idx, pt))
+			}
+			w.oblige("loop.write", name, st.cond, or(alts...), false, props)
+		}
+	}
 }
 
 // loopWriteCheck: a write to (key, ref) inside loops of the function under
@@ -924,6 +1144,30 @@ func (w *World) callWrites(fr *Frame, fn *ssa.Function, c *ssa.CallCommon, addKe
 					}
 				}
 			}
+			return
+		}
+		if depth == 0 && fn == fr.fn && fr.top && ct.ModStated && !ct.ModAll {
+			// a call by contract made by the loop itself: the objects its
+			// modifies clause designates are resolved at the loop head (when
+			// they do not change inside the loop); what its postcondition
+			// reads of fresh objects does not touch older ones
+			mk, pk, ok := w.contractKeySets(ct, callee)
+			if !ok {
+				for _, k := range w.contractKeys(ct, callee) {
+					addKey(k)
+				}
+				return
+			}
+			for _, k := range mk {
+				addKeyQuiet(w, k)
+			}
+			for _, k := range pk {
+				addKeyQuiet(w, k)
+				if !containsStr(mk, k) {
+					w.loopFreshAlloc[k] = true
+				}
+			}
+			w.loopCallSites = append(w.loopCallSites, loopCallSite{ct: ct, callee: callee, c: c, keys: mk})
 			return
 		}
 		for _, k := range w.contractKeys(ct, callee) {
